@@ -4,10 +4,12 @@ from __future__ import annotations
 
 import ast
 
-from ..cfg import CFG, dominators, find_path, forward
+from ..cfg import dominators
 from ..itermut import IterMut
-from ..model import AnalysisError, chain, unparse
+from ..model import AnalysisError, unparse
 from ..report import RuleResult
+from ..roles import param
+from ._c05_sem import Fx, KindFacts, containers_of_kind, covered_helpers, effectful, name_of
 
 
 def rule_itermut(ctx) -> RuleResult:
@@ -37,26 +39,6 @@ def rule_itermut(ctx) -> RuleResult:
     return res
 
 
-
-
-from ..kinds import feasible_succ, has_call, reach, tv
-
-
-def _only_raises(g, start) -> bool:
-    seen, stack = set(), [start]
-    while stack:
-        n = stack.pop()
-        if n in seen:
-            continue
-        seen.add(n)
-        if n is g.exit:
-            return False
-        if n.kind == "raise":
-            continue
-        stack.extend(m for m, _ in n.succ)
-    return True
-
-
 def rule_guard(ctx) -> RuleResult:
     res = RuleResult(
         "C05.GUARD",
@@ -65,52 +47,73 @@ def rule_guard(ctx) -> RuleResult:
         "branch included): a refused request changes nothing",
         floor=4,
     )
-    fn = ctx.p.func("Workspace.remove_entity")
-    ent = fn.params[1]
-    g = CFG(fn.node)
-    dom = dominators(g)
-    guards = [n for n in g.nodes if n.kind == "test" and unparse(n.ast) == f"not {ent}.allow_delete"
-              and all(_only_raises(g, m) for m, l in n.succ if l == "true")]
+    # decided on the paths, not on the spelling of the test: with the entity's allow_delete assumed OFF no path may reach a
+    # call that an accepted request (allow_delete ON) also reaches, nor the normal exit (helpers expanded, aliases undone)
+    fn = ctx.view("Workspace.remove_entity")
+    ent = param(fn, 0)
+    if ent is None:
+        raise AnalysisError("C05.GUARD: Workspace.remove_entity has no entity parameter")
+    F = Fx(fn)
+    g = F.g
+    flag = f"truthy:{ent}.allow_delete"
+    off = F.reach([g.entry], ent, {flag: False})
+    on = F.reach([g.entry], ent, {flag: True})
+    guards = [n for n in off if F.decided(n, ent, {flag: False}) is not None]
     if not guards:
         res.inst("allow_delete guard present", ok=False)
         res.find("Workspace", "remove_entity", "no `if not entity.allow_delete: raise` guard", fn.where,
                  "the delete-permission test is gone or no longer raises: entities with allow_delete off are removed")
         return res
-    T = guards[0]
-    raised = reach(g, [m for m, l in T.succ if l == "true"])
+    bad = 0
     for n in g.nodes:
-        if n in raised or n is T or n.ast is None or isinstance(n.ast, list):
+        if n not in on or n.kind == "raise":
             continue
-        calls = [c for c in ast.walk(n.ast) if isinstance(c, ast.Call)] if n.kind != "with" else []
-        effectful = [c for c in calls if not (isinstance(c.func, ast.Name) and c.func.id in ("isinstance", "hasattr", "getattr", "type"))]
-        if not effectful:
+        eff = effectful(F.calls(n))
+        if not eff:
             continue
-        ok = T in dom.get(n, ())
-        res.inst(f"remove_entity:{n.lineno} {unparse(effectful[0])[:50]} dominated by the allow_delete guard", nontrivial=True, ok=ok)
+        ok = n not in off
+        bad += not ok
+        res.inst(f"remove_entity:{n.lineno} {unparse(eff[0])[:50]} dominated by the allow_delete guard", nontrivial=True, ok=ok)
         if not ok:
-            res.find("Workspace", "remove_entity", f"{unparse(effectful[0])[:50]} not dominated by the guard",
+            res.find("Workspace", "remove_entity", f"{unparse(eff[0])[:50]} not dominated by the guard",
                      f"{fn.module.relpath}:{n.lineno}",
                      "a deletion effect is reachable without passing the allow_delete test")
+    if g.exit in off and not bad:
+        res.inst("allow_delete guard raises", ok=False)
+        res.find("Workspace", "remove_entity", "no `if not entity.allow_delete: raise` guard", fn.where,
+                 "the delete-permission test is gone or no longer raises: entities with allow_delete off are removed")
     return res
 
 
 def _concat_remove_sites(ctx):
-    """Call sites of Concatenator.remove_entity outside Concatenator.remove_entity itself."""
+    """Call sites of Concatenator.remove_entity outside Concatenator.remove_entity itself: (raw function, Fx of its view, call).
+    A private helper whose every call was expanded into its callers is judged there (in context), not on its own."""
     p = ctx.p
     conc = p.cls("Concatenator")
-    out = []
+
+    def raw_hit(node):
+        return any(isinstance(n, ast.Call) and name_of(n.func) == "remove_entity" for n in ast.walk(node))
+
+    cands = []
     for fn in p.all_functions():
         if fn.cls is conc and fn.name == "remove_entity":
             continue
-        for n in ast.walk(fn.node):
-            if isinstance(n, ast.Call) and isinstance(n.func, ast.Attribute) and n.func.attr == "remove_entity" and len(n.args) == 1:
-                recv = n.func.value
+        v = ctx.view(fn) if any(isinstance(n, ast.Call) and (name_of(n.func) or "").startswith("_") for n in ast.walk(fn.node)) else fn
+        if raw_hit(v.node):
+            cands.append((fn, v))
+    out = []
+    for fn, v in cands:
+        F = Fx(v)
+        for n in ast.walk(v.node):
+            if isinstance(n, ast.Call) and isinstance(n.func, ast.Attribute) and n.func.attr == "remove_entity" and len(n.args) + len(n.keywords) == 1:
+                recv = F.x(n.func.value)
                 is_conc = (isinstance(recv, ast.Attribute) and recv.attr == "concatenator") or (
                     isinstance(recv, ast.Name) and recv.id == fn.self_name and fn.cls is not None and conc in fn.cls.mro
                 )
                 if is_conc:
-                    out.append((fn, n))
-    return out
+                    out.append((fn, F, n))
+    skip = covered_helpers(ctx, list({fn for fn, _, _ in out}))
+    return [(fn, F, n) for fn, F, n in out if fn not in skip]
 
 
 def rule_sibling(ctx) -> RuleResult:
@@ -121,38 +124,45 @@ def rule_sibling(ctx) -> RuleResult:
         "from its parent's child list on the same path — the removal entry points agree with ConcatenatedObject.remove_children",
         floor=3,
     )
-    for fn, call in _concat_remove_sites(ctx):
-        arg = unparse(call.args[0])
-        g = CFG(fn.node)
-        site = next(n for n in g.nodes if n.ast is not None and not isinstance(n.ast, list) and call in list(ast.walk(n.ast)))
+    for fn, F, call in _concat_remove_sites(ctx):
+        a0 = call.args[0] if call.args else call.keywords[0].value
+        arg = F.xt(a0)  # aliases / bound helper parameters undone
+        g = F.g
+        site = F.node_of(call)
+        if site is None:
+            raise AnalysisError(f"C05.SIBLING: call site at {fn.qualname}:{call.lineno} not found in the control-flow graph")
 
-        def drops(n, arg=arg):
+        def drops(n, arg=arg, F=F):
             if n.ast is None or isinstance(n.ast, list):
                 return False
-            for c in ast.walk(n.ast):
-                if isinstance(c, ast.Call) and isinstance(c.func, ast.Attribute) and c.func.attr == "remove" and c.args and unparse(c.args[0]) == arg:
-                    if isinstance(c.func.value, ast.Attribute) and c.func.value.attr in ("_children", "children"):
+            for c in F.calls(n):
+                if not isinstance(c.func, ast.Attribute):
+                    continue
+                recv = F.x(c.func.value)
+                if c.func.attr == "remove" and c.args and F.xt(c.args[0]) == arg:
+                    if isinstance(recv, ast.Attribute) and recv.attr in ("_children", "children"):
                         return True
-                if isinstance(c, ast.Call) and isinstance(c.func, ast.Attribute) and c.func.attr == "remove_children":
-                    if any(arg in unparse(a) for a in c.args) and unparse(c.func.value) in (f"{arg}.parent", "parent"):
+                if c.func.attr == "remove_children":
+                    if any(arg in F.xt(a) for a in c.args) and unparse(recv) in (f"{arg}.parent", "parent"):
                         return True
-                if isinstance(c, ast.Assign) and any(isinstance(t, ast.Attribute) and t.attr == "_children" for t in c.targets):
-                    return True
+            if n.kind == "stmt" and isinstance(n.ast, ast.Assign) and any(isinstance(t, ast.Attribute) and t.attr == "_children" for t in n.ast.targets):
+                return True
             return False
 
         # a path from the site to the normal exit (or back to the loop head) that avoids every drop
-        after = reach(g, [m for m, _ in site.succ], avoid=drops)
-        before_ok = False
+        after = F.reach([m for m, _ in site.succ], avoid=drops)
         # drop may also precede the call within the same iteration: require it to dominate the site
         dom = dominators(g)
         before_ok = any(drops(d) for d in dom.get(site, ()) if d is not site)
         leak = (g.exit in after) and not before_ok and not drops(site)
-        inst = f"{fn.qualname}:{call.lineno} {unparse(call)[:60]}"
+        text = F.xt(call)[:60]
+        inst = f"{fn.qualname}:{call.lineno} {text}"
         res.inst(inst, nontrivial=True, ok=not leak)
         if leak:
+            # the key names a LOCAL by role (E), a parameter by its name: renaming a local does not change the finding's identity
+            disp = arg if arg in fn.params else "E"
             res.find(fn.cls.name if fn.cls else fn.module.short, fn.prop or fn.name,
-                     # the key names a LOCAL by role (E), a parameter by its name: renaming a local does not change the finding's identity
-                     (lambda disp: f"{unparse(call)[:60].replace(arg, disp)} without dropping {disp} from the parent's children")(arg if arg in fn.params else "E"),
+                     f"{text.replace(arg, disp)} without dropping {disp} from the parent's children",
                      f"{fn.module.relpath}:{call.lineno}",
                      f"{fn.qualname} removes the stored form of {arg} but a path reaches the exit without removing it from "
                      "its parent's _children (ConcatenatedObject.remove_children does both): the parent still lists the removed "
@@ -179,28 +189,38 @@ def rule_scrub(ctx) -> RuleResult:
             impls.setdefault(m[2], []).append(K.name)
     if not impls:
         raise AnalysisError("C05.SCRUB: no remove_children implementation found on the ObjectBase family")
-    for fn, classes in impls.items():
-        g = CFG(fn.node)
+    for fn0, classes in impls.items():
+        fn = ctx.view(fn0)  # private helpers (the per-child body, ...) expanded in place
+        F = Fx(fn)
+        g = F.g
         sn = fn.self_name
         loops = [n for n in g.nodes if n.kind == "fornext"]
 
-        def is_listrem(n):
-            if n.ast is None or isinstance(n.ast, list) or n.kind != "stmt":
-                return False
-            for c in ast.walk(n.ast):
-                if isinstance(c, ast.Call) and isinstance(c.func, ast.Attribute) and c.func.attr == "remove" and unparse(c.func.value) == f"{sn}._children":
-                    return True
-            return False
+        def list_removal(n, F=F, sn=sn):
+            """the argument of `self._children.remove(<child>)` (through aliases of the list), else None"""
+            if n.kind != "stmt":
+                return None
+            for c in F.calls(n):
+                if isinstance(c.func, ast.Attribute) and c.func.attr == "remove" and c.args and F.xt(c.func.value) == f"{sn}._children":
+                    return c.args[0]
+            return None
 
-        def calls_named(names):
-            return lambda n: has_call(n, lambda c: isinstance(c.func, ast.Attribute) and c.func.attr in names)
+        def calls_named(names, F=F):
+            return lambda n: F.has_call(n, lambda c: isinstance(c.func, ast.Attribute) and c.func.attr in names)
+
+        def _on_concatenator(c, F=F):
+            if not (isinstance(c.func, ast.Attribute) and c.func.attr == "remove_entity"):
+                return False
+            recv = F.x(c.func.value)
+            return isinstance(recv, ast.Attribute) and recv.attr == "concatenator"
 
         scrub_data = calls_named({"remove_data_from_groups"})
-        scrub_conc = lambda n: has_call(n, lambda c: isinstance(c.func, ast.Attribute) and c.func.attr == "remove_entity" and isinstance(c.func.value, ast.Attribute) and c.func.value.attr == "concatenator")  # noqa: E731
+        scrub_conc = lambda n, F=F: F.has_call(n, _on_concatenator)  # noqa: E731
         scrub_pg = calls_named({"remove_property_group"})
-        unlink = lambda n: has_call(n, lambda c: isinstance(c.func, ast.Attribute) and c.func.attr == "remove_children" and unparse(c.func.value) == f"{sn}.workspace") or scrub_conc(n)  # noqa: E731
-        rems = [n for n in g.nodes if is_listrem(n)]
-        rebinds = [n for n in g.nodes if n.kind == "stmt" and isinstance(n.ast, ast.Assign) and any(unparse(t) == f"{sn}._children" for t in n.ast.targets)]
+        unlink = lambda n, F=F, sn=sn: F.has_call(n, lambda c: isinstance(c.func, ast.Attribute) and c.func.attr == "remove_children" and F.xt(c.func.value) == f"{sn}.workspace") or scrub_conc(n)  # noqa: E731
+        rems = [n for n in g.nodes if list_removal(n) is not None]
+        rebinds = [n for n in g.nodes if n.kind == "stmt" and isinstance(n.ast, (ast.Assign, ast.AnnAssign))
+                   and any(unparse(t) == f"{sn}._children" for t in (n.ast.targets if isinstance(n.ast, ast.Assign) else [n.ast.target]))]
         res.inst(f"{fn.qualname} (reached on {len(classes)} classes): {len(rems)} in-place removals, {len(rebinds)} rebinds", nontrivial=True)
         if not rems and not rebinds:
             res.find(fn.cls.name, fn.name, "no removal from self._children", fn.where,
@@ -208,21 +228,23 @@ def rule_scrub(ctx) -> RuleResult:
             continue
         for kind, facts, scrub, what in (
             ("Data", {"Data": True, "PropertyGroup": False}, lambda n: scrub_data(n) or scrub_conc(n), "remove_data_from_groups(child)"),
-            ("PropertyGroup", {"Data": False, "PropertyGroup": True, "ConcatenatedPropertyGroup": True, f"truthy:{sn}._property_groups": True}, lambda n: scrub_pg(n) or scrub_conc(n), "remove_property_group(child)"),
+            ("PropertyGroup", {"Data": False, "PropertyGroup": True, "ConcatenatedPropertyGroup": True, f"truthy:{sn}._property_groups": True, f"notnone:{sn}._property_groups": True}, lambda n: scrub_pg(n) or scrub_conc(n), "remove_property_group(child)"),
         ):
             for L in rems:
-                # loop variable name
-                var = None
-                for lp in loops:
-                    if isinstance(lp.ast, ast.Name):
-                        var = lp.ast.id
+                # the child: what is removed from the list (a helper's parameter is traced back to the caller's variable)
+                removed = F.x(list_removal(L))
+                var = removed.id if isinstance(removed, ast.Name) else None
+                if var is None:
+                    for lp in loops:
+                        if isinstance(lp.ast, ast.Name):
+                            var = lp.ast.id
                 # path loop-head -> L -> loop-head/exit avoiding the scrub, with kind-infeasible edges pruned
                 heads = [m for lp in loops for m, l in lp.succ if l == "loop"] or [g.entry]
-                pre = reach(g, heads, var, facts, avoid=scrub)
+                pre = F.reach(heads, var, facts, avoid=scrub)
                 if L not in pre:
                     ok = True
                 else:
-                    post = reach(g, [m for m, _ in L.succ], var, facts, avoid=scrub, stop=lambda n: n.kind == "fornext")
+                    post = F.reach([m for m, _ in L.succ], var, facts, avoid=scrub, stop=lambda n: n.kind == "fornext")
                     ok = not any(n.kind == "fornext" or n is g.exit for n in post)
                 res.inst(f"{fn.qualname}: {kind} child: _children.remove paired with {what}", nontrivial=True, ok=ok)
                 if not ok:
@@ -234,7 +256,7 @@ def rule_scrub(ctx) -> RuleResult:
         dom = dominators(g)
         for L in rems + rebinds:
             before = any(unlink(d) for d in dom.get(L, ()) if d is not L)
-            after = g.exit not in reach(g, [m for m, _ in L.succ], avoid=unlink)
+            after = g.exit not in F.reach([m for m, _ in L.succ], avoid=unlink)
             ok = before or after
             res.inst(f"{fn.qualname}:{L.lineno} removal paired with the file unlink", nontrivial=True, ok=ok)
             if not ok:
@@ -244,24 +266,14 @@ def rule_scrub(ctx) -> RuleResult:
     return res
 
 
-def _kind_table(fn, var):
-    """{'Data': 'Data', ...} from an isinstance chain that returns / assigns string constants."""
-    out = {}
-    for n in ast.walk(fn.node):
-        if isinstance(n, ast.If):
-            t = n.test
-            if isinstance(t, ast.Call) and isinstance(t.func, ast.Name) and t.func.id == "isinstance" and unparse(t.args[0]) == var:
-                k = unparse(t.args[1])
-                for s in n.body:
-                    if isinstance(s, ast.Return) and isinstance(s.value, ast.Constant):
-                        out[k] = s.value.value
-                    if isinstance(s, ast.Assign) and isinstance(s.value, ast.Constant):
-                        out[k] = s.value.value
-                if n.orelse and not isinstance(n.orelse[0], ast.If):
-                    for s in n.orelse:
-                        if isinstance(s, ast.Assign) and isinstance(s.value, ast.Constant):
-                            out["<else>"] = s.value.value
-    return out
+def _is_file_removal(F, c, uid_of=None) -> bool:
+    """`<ws>._io_call(H5Writer.remove_entity, <x>.uid, <container>, ...)`; uid_of: the name <x> must be (None: any)."""
+    if not (isinstance(c.func, ast.Attribute) and c.func.attr == "_io_call" and len(c.args) >= 3):
+        return False
+    if F.xt(c.args[0]) != "H5Writer.remove_entity":
+        return False
+    u = F.x(c.args[1])
+    return isinstance(u, ast.Attribute) and u.attr == "uid" and (uid_of is None or unparse(u.value) == uid_of)
 
 
 def rule_file(ctx) -> RuleResult:
@@ -275,28 +287,25 @@ def rule_file(ctx) -> RuleResult:
         floor=6,
     )
     p = ctx.p
-    fn = p.func("Workspace.remove_entity")
-    ent = fn.params[1]
-    g = CFG(fn.node)
-    facts = {"Concatenated": False, "ConcatenatedPropertyGroup": False, "PropertyGroup": False}
-    rec = lambda n: has_call(n, lambda c: isinstance(c.func, ast.Attribute) and c.func.attr == "remove_recursively" and c.args and unparse(c.args[0]) == ent)  # noqa: E731
+    fn = ctx.view("Workspace.remove_entity")
+    ent = param(fn, 0)
+    if ent is None:
+        raise AnalysisError("C05.FILE: Workspace.remove_entity has no entity parameter")
+    F = Fx(fn)
+    g = F.g
+    # an ordinary entity: not concatenated, not a property group (nor any of their subclasses)
+    facts = KindFacts(p, None, {"Concatenated": False, "ConcatenatedPropertyGroup": False, "PropertyGroup": False},
+                      excluded=[p.cls(k) for k in ("Concatenated", "ConcatenatedPropertyGroup", "PropertyGroup")])
+    rec = lambda n: F.has_call(n, lambda c: isinstance(c.func, ast.Attribute) and c.func.attr == "remove_recursively" and c.args and F.xt(c.args[0]) == ent)  # noqa: E731
+    file_rm = lambda n: F.has_call(n, lambda c: _is_file_removal(F, c, ent))  # noqa: E731
 
-    def file_rm(n):
-        def pred(c):
-            if not (isinstance(c.func, ast.Attribute) and c.func.attr == "_io_call" and c.args):
-                return False
-            if unparse(c.args[0]) != "H5Writer.remove_entity" or len(c.args) < 3:
-                return False
-            return unparse(c.args[1]) == f"{ent}.uid"
-        return has_call(n, pred)
-
-    r1 = reach(g, [g.entry], ent, facts, avoid=rec)
+    r1 = F.reach([g.entry], ent, facts, avoid=rec)
     ok1 = g.exit not in r1
     res.inst("remove_entity: every normal non-concatenated path calls remove_recursively(entity)", nontrivial=True, ok=ok1)
     if not ok1:
         res.find("Workspace", "remove_entity", "path without remove_recursively(entity)", fn.where,
                  "an ordinary entity can be 'removed' without unlinking it from its parent and removing its children")
-    r2 = reach(g, [g.entry], ent, facts, avoid=file_rm)
+    r2 = F.reach([g.entry], ent, facts, avoid=file_rm)
     ok2 = g.exit not in r2
     res.inst("remove_entity: every normal path of a non-property-group entity deletes its node from the flat container", nontrivial=True, ok=ok2)
     if not ok2:
@@ -313,34 +322,62 @@ def rule_file(ctx) -> RuleResult:
                  "the node is deleted before / without the recursive removal of children and the unlink from the parent")
     # the container argument is str_from_type(entity)
     for f in file_nodes:
-        for c in ast.walk(f.ast):
-            if isinstance(c, ast.Call) and isinstance(c.func, ast.Attribute) and c.func.attr == "_io_call" and len(c.args) >= 3:
-                arg = c.args[2]
-                src = None
-                if isinstance(arg, ast.Name):
-                    for a in ast.walk(fn.node):
-                        if isinstance(a, ast.Assign) and any(isinstance(t, ast.Name) and t.id == arg.id for t in a.targets):
-                            src = unparse(a.value)
-                else:
-                    src = unparse(arg)
-                ok = src in (f"self.str_from_type({ent})", f"Workspace.str_from_type({ent})")
-                res.inst(f"remove_entity: container argument comes from {src}", ok=ok)
+        for c in F.calls(f):
+            if _is_file_removal(F, c, ent):
+                src = F.x(c.args[2])
+                ok = isinstance(src, ast.Call) and name_of(src.func) == "str_from_type" and len(src.args) == 1 and not src.keywords and unparse(src.args[0]) == ent
+                shown = unparse(src)
+                res.inst(f"remove_entity: container argument comes from {shown}", ok=ok)
                 if not ok:
-                    res.find("Workspace", "remove_entity", f"container argument {src}", f"{fn.module.relpath}:{c.lineno}",
+                    res.find("Workspace", "remove_entity", f"container argument {shown}", f"{fn.module.relpath}:{c.lineno}",
                              "the flat container is not derived from the entity's kind")
     # remove_recursively
-    rr = p.func("Workspace.remove_recursively")
-    e2 = rr.params[1]
-    g2 = CFG(rr.node)
-    unlink = lambda n: has_call(n, lambda c: isinstance(c.func, ast.Attribute) and c.func.attr == "remove_children" and c.args and e2 in unparse(c.args[0]))  # noqa: E731
-    ok4 = g2.exit not in reach(g2, [g2.entry], avoid=unlink)
+    rr = ctx.view("Workspace.remove_recursively")
+    e2 = param(rr, 0)
+    if e2 is None:
+        raise AnalysisError("C05.FILE: Workspace.remove_recursively has no entity parameter")
+    R = Fx(rr)
+    g2 = R.g
+    unlink = lambda n: R.has_call(n, lambda c: isinstance(c.func, ast.Attribute) and c.func.attr == "remove_children" and c.args and e2 in R.names_in(c.args[0]))  # noqa: E731
+    ok4 = g2.exit not in R.reach([g2.entry], avoid=unlink)
     res.inst("remove_recursively: parent.remove_children([entity]) on every normal path", nontrivial=True, ok=ok4)
     if not ok4:
         res.find("Workspace", "remove_recursively", "path without parent.remove_children([entity])", rr.where,
                  "the entity stays in its parent's child list (memory and file)")
-    child_loops = [n for n in g2.nodes if n.kind == "foriter" and "children" in unparse(n.ast)]
+
+    # the visit of the children: calls <workspace>.<method>(<child>) whose argument is drawn from <entity>.children (the variable
+    # of a for loop / comprehension over a copy of the list, an element popped from a snapshot, ...), executed repeatedly
+    loop_iters = {}
+    for x in ast.walk(rr.node):
+        if isinstance(x, (ast.For, ast.comprehension)) and isinstance(x.target, ast.Name):
+            loop_iters.setdefault(x.target.id, []).append(x.iter)
+
+    def from_children(expr, depth=0):
+        for y in ast.walk(R.x(expr)):
+            if isinstance(y, ast.Attribute) and y.attr in ("children", "_children") and e2 in {z.id for z in ast.walk(y.value) if isinstance(z, ast.Name)}:
+                return True
+            if isinstance(y, ast.Call) and name_of(y.func) == "getattr" and len(y.args) >= 2 and unparse(y.args[0]) == e2 \
+                    and isinstance(y.args[1], ast.Constant) and y.args[1].value in ("children", "_children"):
+                return True
+            if isinstance(y, ast.Name) and depth < 3 and any(from_children(it, depth + 1) for it in loop_iters.get(y.id, ())):
+                return True
+        return False
+
+    sn2 = rr.self_name
+    in_comprehension = {id(c) for x in ast.walk(rr.node) if isinstance(x, (ast.ListComp, ast.SetComp, ast.GeneratorExp, ast.DictComp)) for c in ast.walk(x)}
+    visits = []  # (CFG node, call)
+    for n in g2.nodes:
+        if n.kind in ("foriter", "fornext"):
+            continue
+        for c in R.calls(n):
+            if isinstance(c.func, ast.Attribute) and c.args and from_children(c.args[0]):
+                recv = R.xt(c.func.value)
+                if recv in (sn2, f"{sn2}.workspace", f"{e2}.workspace") or (recv.endswith(".workspace") and from_children(c.func.value.value if isinstance(c.func.value, ast.Attribute) else c.func.value)):
+                    if id(c) in in_comprehension or n in R.reach([m for m, _ in n.succ]):
+                        visits.append((n, c))
     un_nodes = [n for n in g2.nodes if unlink(n)]
-    ok5 = bool(child_loops) and all(not (set(reach(g2, [u])) & set(child_loops)) for u in un_nodes)
+    vnodes = {n for n, _ in visits}
+    ok5 = bool(visits) and all(not (set(R.reach([u])) & vnodes) for u in un_nodes)
     res.inst("remove_recursively: children are visited before the unlink from the parent", nontrivial=True, ok=ok5)
     if not ok5:
         res.find("Workspace", "remove_recursively", "children not visited before the unlink", rr.where,
@@ -348,52 +385,36 @@ def rule_file(ctx) -> RuleResult:
     # each child is removed through a function that reaches the flat-container deletion
     ws = p.cls("Workspace")
 
-    def reaches_file_removal(name, seen=()):
+    def reaches_file_removal(name):
         m = ws.lookup(name)
-        if not m or m[1] != "method" or name in seen:
+        if not m or m[1] != "method":
             return False
-        f = m[2]
-        for c in ast.walk(f.node):
-            if isinstance(c, ast.Call) and isinstance(c.func, ast.Attribute) and c.func.attr == "_io_call" and c.args and unparse(c.args[0]) == "H5Writer.remove_entity" \
-                    and len(c.args) > 1 and unparse(c.args[1]).endswith(".uid"):
-                return True
-        # direct, unconditional-by-structure calls only (self.<m>(...))
-        return False
+        V = Fx(ctx.view(m[2]))  # the deletion may sit in a private helper of that method
+        # direct, unconditional-by-structure calls only
+        return any(_is_file_removal(V, c) for c in ast.walk(V.node) if isinstance(c, ast.Call))
 
-    for lp in [x for x in ast.walk(rr.node) if isinstance(x, ast.For) and "children" in unparse(x.iter)]:
-        var = unparse(lp.target)
-        calls = [c for s_ in lp.body for c in ast.walk(s_) if isinstance(c, ast.Call) and isinstance(c.func, ast.Attribute) and unparse(c.func.value) == "self"
-                 and c.args and unparse(c.args[0]) == var]
-        ok = bool(calls) and all(reaches_file_removal(c.func.attr) for c in calls)
-        res.inst(f"remove_recursively: each child goes through {[c.func.attr for c in calls]} (must contain the flat-container deletion)", nontrivial=True, ok=ok)
+    if visits:
+        through = sorted({c.func.attr for _, c in visits})
+        ok = all(reaches_file_removal(m) for m in through)
+        res.inst(f"remove_recursively: each child goes through {through} (must contain the flat-container deletion)", nontrivial=True, ok=ok)
         if not ok:
-            res.find("Workspace", "remove_recursively", f"children removed through {[c.func.attr for c in calls]}, which does not delete their node", f"{rr.module.relpath}:{lp.lineno}",
+            res.find("Workspace", "remove_recursively", f"children removed through {through}, which does not delete their node",
+                     f"{rr.module.relpath}:{min(n.lineno for n, _ in visits)}",
                      "descendants are unlinked from their parents but their nodes stay in the flat Objects / Data containers of the file")
-    # tables
-    sft = p.func("Workspace.str_from_type")
-    t_sft = _kind_table(sft, sft.params[0] if sft.kind == "staticmethod" else sft.params[1])
-    we = p.func("H5Writer.write_entity")
-    t_we = _kind_table(we, we.params[2] if len(we.params) > 2 else "entity")
-    wp = p.func("H5Writer.write_to_parent")
-    t_wp = _kind_table(wp, wp.params[2] if len(wp.params) > 2 else "entity")
-    fh = p.func("H5Writer.fetch_handle")
-    t_fh = {}
-    for n in ast.walk(fh.node):
-        # the kind -> container table: a dict literal {<class>: "<container>"} bound to a local
-        if isinstance(n, ast.Assign) and isinstance(n.value, ast.Dict) and n.value.keys and all(isinstance(k, (ast.Name, ast.Attribute)) for k in n.value.keys) \
-                and all(isinstance(v, ast.Constant) and isinstance(v.value, str) for v in n.value.values):
-            for k, v in zip(n.value.keys, n.value.values):
-                if isinstance(v, ast.Constant):
-                    t_fh[unparse(k)] = v.value
+    # tables: for an entity of each kind, the container name each function can choose on the paths feasible for that kind
     expect = {"Data": "Data", "Group": "Groups", "ObjectBase": "Objects"}
-    for name, tab in (("str_from_type", t_sft), ("write_entity", t_we), ("write_to_parent", t_wp), ("fetch_handle", t_fh)):
+    for spec, idx in (("Workspace.str_from_type", 0), ("H5Writer.write_entity", 1), ("H5Writer.write_to_parent", 1), ("H5Writer.fetch_handle", 1)):
+        tf = ctx.view(spec)
+        var = param(tf, "entity") or param(tf, idx)
+        if var is None:
+            raise AnalysisError(f"C05.FILE: {spec} has no entity parameter")
         for k, v in expect.items():
-            got = tab.get(k, tab.get("<else>") if name == "write_entity" and k == "Group" else None)
+            names = containers_of_kind(p, tf, var, p.cls(k))
+            got = None if not names else (next(iter(names)) if len(names) == 1 else sorted(names))
             ok = got == v
-            res.inst(f"{name}: kind {k} -> container {got!r}", ok=ok)
+            res.inst(f"{tf.name}: kind {k} -> container {got!r}", ok=ok)
             if not ok:
-                res.find("Workspace" if name == "str_from_type" else "H5Writer", name, f"kind {k} maps to {got!r}, expected {v!r}",
-                         (sft if name == "str_from_type" else we if name == "write_entity" else wp if name == "write_to_parent" else fh).where,
+                res.find(tf.cls.name, tf.name, f"kind {k} maps to {got!r}, expected {v!r}", tf.where,
                          "the kind->container tables of the removal path and of the writer disagree: a removed entity's node stays in "
                          "its real container")
     return res
